@@ -31,13 +31,23 @@ from props.parts import _c15 as K
 import gen_lib as GL
 
 NS = "EngineModel.Properties.C15Faults."
-LEAN_MODULES = ["Properties.C15Faults"]
+NST = "EngineModel.Properties.C15FaultsTracks."
+NST1 = "EngineModel.Properties.C15FaultsTracksV1."
+LEAN_MODULES = ["Properties.C15Faults", "Properties.C15FaultsTracks", "Properties.C15FaultsTracksV1"]
+THEOREMS_TRACKS = [NST + t for t in [
+    "v2t_C15_failed_call_restores", "v2t_C15_fault_inside_throws", "v2t_C15_call_under_faults",
+    "v2t_C14_failed_call_unchanged", "v2t_C15_bridge", "v2t_C15_after_faults_inv", "v2t_C15_after_faults_reachable",
+    "v2t_C15_after_faults_no_ub", "v2t_C15_after_faults_no_ub_from", "v2t_C15_after_faults_stale_handle",
+    "v2t_C15_without_scope_counterexample"]] + [NST1 + t for t in [
+    "v1t_C15_failed_call_restores", "v1t_C15_fault_inside_throws", "v1t_C15_call_under_faults",
+    "v1t_C14_failed_call_unchanged", "v1t_C15_after_faults_inv", "v1t_C15_after_faults_reachable",
+    "v1t_C15_after_faults_no_ub"]]
 THEOREMS = [NS + t for t in [
     "v2c_C15_failed_call_restores", "v2c_C15_fault_inside_throws", "v2c_C15_call_under_faults",
     "v2c_C15_after_faults_inv", "v2c_C15_after_faults_no_ub", "v2c_C15_after_faults_prefix_queries_no_ub",
     "v2c_C15_without_scope_counterexample",
     "v1c_C15_failed_call_restores", "v1c_C15_fault_inside_throws", "v1c_C15_call_under_faults",
-    "v1c_C15_after_faults_inv", "v1c_C15_after_faults_no_ub", "v1c_C15_without_scope_counterexample"]]
+    "v1c_C15_after_faults_inv", "v1c_C15_after_faults_no_ub", "v1c_C15_without_scope_counterexample"]] + THEOREMS_TRACKS
 ASSUMPTIONS = [
     "faults: a failed call is the statement program of the call (the programs C14 proves all-or-nothing: "
     "Db/V2CratesStmts.stmts, Api/CratesV1Stmts.stmts) on the connection model of Spec/Txn.lean under a fault plan — "
@@ -47,6 +57,14 @@ ASSUMPTIONS = [
     "faults: a call that throws by itself from a guard issues a prefix of the program of the successful call; under a "
     "plan the model answers `throw` with the API model's state (the guard's or the fault's exception — the class is "
     "not part of C15); a statement refused by a constraint is a write function answering `none` inside the program",
+    "faults, 2.x tracks: the programs are TracksV2/Stmts.topStmts over the statement-level Track table (C14's: the five "
+    "scoped setters and remove_track at UPDATE / DELETE granularity, the other calls one write); the bridge to the C15 "
+    "track model (v2t_C15_bridge: TDb.step = C15TracksV2.step on the row store the getters read) is a theorem; the "
+    "memberships of a removed track are outside the Track-table model (remove_track = the scope of its DELETE); 1.x "
+    "tracks: the programs are TracksV1/Stmts.topStmts at CALL granularity (one write = the joint effect of the call inside "
+    "the scope engine_track_impl.cpp gives it: the model has no statement level, so a fault between two statements of a "
+    "scoped call is not a position of the 1.x theorem — C14's scope table + the harness fault stream cover it); the model "
+    "side of the fault stream exists for 2.x tracks only (mode c15ftv2)",
 ]
 MANIFEST_TEXT = ("Failed calls: for ALL histories of crate / membership calls x ALL fault plans (a statement failing at any "
                  "position of any call, BEGIN / COMMIT included, or refused by a constraint) x ALL arguments the state "
@@ -55,8 +73,19 @@ MANIFEST_TEXT = ("Failed calls: for ALL histories of crate / membership calls x 
                  "all-or-nothing with the reachable-state theorems); without the transaction scope the same move leaves "
                  "a sibling list without a tail and the ordered walk is `ub` (v2c_C15_without_scope_counterexample). "
                  "Tied by a fault stream: every statement position of every mutating crate call on the sanitizer harness, "
-                 "every query through live and stale handles after each failure; for tracks (create / update / setters / remove, "
-                 "duplicate path) the same fault stream on the harness only (no theorem).")
+                 "every query through live and stale handles after each failure.  2.x TRACKS: create_track / update / every "
+                 "setter / remove_track as their C14 statement programs under any fault plans — a failed call leaves the "
+                 "Track table equal to the prior one (v2t_C14_failed_call_unchanged), the statement-level table model IS "
+                 "the C15 track model on the row store the getters read (v2t_C15_bridge), so the state after any history "
+                 "with failures is a state of the fault-free model (v2t_C15_after_faults_reachable) and every getter, "
+                 "snapshot(), every later call under any plan is free of `ub`, removed handles stay invalid "
+                 "(v2t_C15_after_faults_no_ub, v2t_C15_after_faults_stale_handle); without the scope set_relative_path "
+                 "leaves a half-written row (v2t_C15_without_scope_counterexample).  Tracks of both generations are tied "
+                 "by the fault stream on the harness (create / update / setters / remove, duplicate path: a fault at every "
+                 "statement position, then snapshot() and getters of every track; 2.x also on the model, line by line).  1.x "
+                 "TRACKS: the same composition at call granularity over the tables of the C15 1.x track model itself "
+                 "(v1t_C15_after_faults_no_ub, v1t_C14_failed_call_unchanged, v1t_C15_after_faults_reachable; fault "
+                 "positions BEGIN / the call's joint write / COMMIT).")
 TRUSTED_EXTRA = []
 
 FAMILIES = {
@@ -376,12 +405,14 @@ def minimal_replay(script, tags, k):
 
 
 # ---------------------------------------------------------------------------------------------------------------
-# tracks (both generations): harness only — the track models have no history-with-failures theorem yet (see
-# design/C15_faults.md, limits); the direct oracle is the same: after a fault at EVERY statement position of every
+# tracks (both generations).  2.x: harness and model (mode c15ftv2 = Api/FaultsTracksV2.callF, the semantics of
+# v2t_C15_after_faults_no_ub; design/C15_faults.md §6); 1.x: harness only (no history-with-failures theorem yet).
+# The direct oracle is the same: after a fault at EVERY statement position of every
 # create / update / setter / remove call (and after a duplicate relative path: UNIQUE(path)), every getter, snapshot()
 # and a further mutating call must complete or throw.
 
 TRACK_MUT = ("set", "update", "mktrack", "rmtrack")
+TRACK_MODE_V2 = "c15ftv2"
 
 
 def track_plan(fam, rng, tier, schema, hid, nadv):
@@ -393,6 +424,8 @@ def track_plan(fam, rng, tier, schema, hid, nadv):
         L = C15_tracks_v1.gen_script(rng, tier, schema, hid, nadv, "create")
         npre = 5
     pre = [L[0]] + L[1:npre]      # `#mode c15tv2` / `#mode c15tv1`: the harness skips it; names the replay
+    if fam == "v2":
+        pre[0] = "#mode " + TRACK_MODE_V2     # the model side: Api/FaultsTracksV2.callF (Driver/Cmds/C15FaultsTracks.lean)
     first = next(l for l in pre if l.startswith("mktrack ta "))
     calls = [l for l in L[npre:] if l.split()[0] in TRACK_MUT]
     # duplicate relative path (UNIQUE(path)): the snapshot of `ta` again, under a new handle; then a setter moving tb onto it
@@ -460,9 +493,14 @@ def track_stream(ctx, hist):
             block(ci, n)
         scripts2.append((fam, L, tags))
     hres = runner.run_harness([x[1] for x in scripts2], watchdog=20, stateless=False)
+    # 2.x: the model runs the same fault histories (each call as its statement program under the corresponding plan)
+    v2idx = [i for i, x in enumerate(scripts2) if x[0] == "v2"]
+    mres = dict(zip(v2idx, runner.run_model([scripts2[i][1] for i in v2idx]))) if v2idx else {}
     evals = 0
     seen = set()
-    for (fam, L, tags), (ho, reports) in zip(scripts2, hres):
+    for si, ((fam, L, tags), (ho, reports)) in enumerate(zip(scripts2, hres)):
+        mo = mres.get(si)
+        done_div = False
         blocks = {}
         for tg, h in zip(tags, ho):
             if tg[0] == "obs":
@@ -495,6 +533,22 @@ def track_stream(ctx, hist):
                     hist["partial_updates"] += 1
                     if len(hist["partial_update_examples"]) < 6:
                         hist["partial_update_examples"].append("%s tracks: `%s` failed at statement %d" % (L[1], L[k - 1][:60], tg[2]))
+            # ---- tie (2.x): every line equal to the model's (`ok <text>` literally, `throw` as a class, fired flag)
+            if mo is not None and k < len(mo):
+                m = mo[k]
+                hist["track_model_lines"] += 1
+                if desync:
+                    if K.cls(m) == "ub":
+                        divergences.append({"input": l, "script": L[1], "impl": h[:200], "model": m[:200]})
+                elif not done_div:
+                    if tg[0] == "status":
+                        same = ("fired=1" in h) == ("fired=1" in m)
+                    else:
+                        same = K.canon(h) == K.canon(m)
+                    if not same:
+                        divergences.append({"input": " ; ".join(L[max(1, k - 4):k + 1])[-900:], "script": L[1],
+                                            "impl": h[:400], "model": m[:400]})
+                        done_div = True
     return violations, divergences, evals, len(seen)
 
 
@@ -560,7 +614,7 @@ def tie(ctx):
         evals += e
         distinct += n
     hist.update({"track_positions_per_call": {}, "track_fault_experiments": 0, "track_outcome_faulted": {},
-                 "track_outcome_call": {}, "track_fault_positions_per_op": {}})
+                 "track_outcome_call": {}, "track_fault_positions_per_op": {}, "track_model_lines": 0})
     tv, td, te, tn = track_stream(ctx, hist)
     violations += tv
     divergences += td
@@ -572,13 +626,15 @@ def tie(ctx):
                     "calls); the number n of faultable statements of each call observed in a recording pass; then `fault k` for "
                     "EVERY k < n, the call, and after each failure v*.obs + raw tables + every query through every live and stale "
                     "handle; model = the call's statement program under the corresponding fault plan (Api/Faults*.callF); "
-                    "oracle: no `ub` line, a faulted call throws; distinct = distinct (schema, line, position).  Tracks (harness "
-                    "only): the create / update / setter / remove calls of the track parts' adversarial generators and a duplicate "
-                    "relative path, a fault at every statement position, then snapshot() and getters of every track"
+                    "oracle: no `ub` line, a faulted call throws; distinct = distinct (schema, line, position).  Tracks: the "
+                    "create / update / setter / remove calls of the track parts' adversarial generators and a duplicate "
+                    "relative path, a fault at every statement position, then snapshot() and getters of every track; 2.x: model = "
+                    "Api/FaultsTracksV2.callF on the statement-level Track table, getters on its row store (mode c15ftv2), every "
+                    "line compared; 1.x: harness only"
                     % len(fixed_calls("v2")),
             "samples": [" ; ".join(x[1][-3:])[:200] for x in scripts2[:2]],
             "histograms": hist, "divergences": divergences[:10], "violations": violations[:6]}
 
 
 def replay(ctx, hdr, body):
-    return K.replay([F["mode"] for F in FAMILIES.values()], hdr, body)
+    return K.replay([F["mode"] for F in FAMILIES.values()] + [TRACK_MODE_V2], hdr, body)
